@@ -36,7 +36,7 @@ Definition classes_of (m : mask) : list dcls :=
 
 Definition mask_ok (m : mask_obs) : bool :=
   let ops := map (fun cs => OIgnore (IAdd (map MCls cs))) (fst m) in
-  let d := fst (solo dstep (CG [] 0%N []) (CD [] [] 0%N []) ops) in
+  let d := fst (solo dstep (CG [] 0%N [] [] 1000 false) (CD [] [] 0%N []) ops) in
   dcls_list_eqb (classes_of (dm_mask d)) (snd m).
 
 (* ndocs, schedule with the observation of every step, solo observations per document,
